@@ -1,4 +1,5 @@
 import HsVerif.Proofs.SysRotateChain
+import HsVerif.Proofs.SysRotateGlue
 import HsVerif.Props.C05Quorum
 /-! C05, task S12d — ROTATING LEADERS (with the silent-minority setting of S12c: `RotCfg C` — the participants `C.honest` are at
 least a quorum; nothing is assumed about who leads which view except, per theorem, that the leaders of the views in question are
@@ -13,12 +14,18 @@ What changes against a fixed leader, and where it is proved:
   with the other votes — AFTER the proposal has reached the next collector (an order restriction of the rounds; in the model a
   vote that arrives before its proposal is deferred, not dropped: `collectVote`'s `waitingProp`, see `C05Live.lastVoted_counterexample`);
 * every participant may lead later: the `markWalk` hypothesis (`SyncM.mark`) is carried by all of them (`mark_step`).
-`one_view_rot`, `synced_commits_rot`: same conclusions as the `_live` theorems.  NOT done: the link from the recovery round
-(`recovery_reaches_synced_rot`, `commit_after_recovery_rot`) — see `commit_after_recovery_rot_partial` and the report.  The fixed-leader
+`one_view_rot`, `synced_commits_rot`: same conclusions as the `_live` theorems.  Task S12e (Proofs/SysRotateGlue.lean):
+`recovery_reaches_synced_rot` and `commit_after_recovery_rot` — the recovery round with the leader `ldr C (v + 1)` sending its vote for
+`b'` to `ldr C (v + 2)`, under `SyncPreRot` (`SyncPre` + `markWalk` from every `Top` block at every participant) and the hypothesis that
+the leaders of `v + 1` and `v + 2` DIFFER (the other case is the fixed-leader development); `commit_after_recovery_rot_partial` (the
+earlier conditional form) is kept.  The fixed-leader
+The fixed-leader
 theorems are NOT instances of these: `PhaseARot` asks `markWalk` and the high-QC bound of EVERY participant (any may lead), which the
 fixed-leader `PhaseA` asks of the leader only; conversely `HappyLive.toRot` / `HappyLive.ldr` turn a fixed-leader configuration into
 a rotating one.  Nothing was found false with rotating leaders.
-Non-vacuity: `synced_commits_rot_nonvacuous`, `rotating_run_commits` (n = 4, round-robin, a recovery in view 1; views 2–5 led by 3, 4, 1, 2). -/
+Non-vacuity: `synced_commits_rot_nonvacuous`, `rotating_run_commits` (n = 4, round-robin, a recovery in view 1; views 2–5 led by 3, 4, 1, 2);
+`commit_after_recovery_rot_nonvacuous`, `rotating_recovery_commits` (four views of round-robin progress, recovery in view 4, views 5–8
+led by 2, 3, 4, 1: all commit `P5`). -/
 set_option linter.unusedVariables false
 namespace HsVerif.Props.C05Rotate
 open HsVerif.Model HsVerif.Proofs HsVerif.Props.C01Sys HsVerif.Props.C01SysWF HsVerif.Props.C03
@@ -180,6 +187,49 @@ theorem commit_after_recovery_rot_partial (k : Keys) (C : SysCfg) (hC : RotCfg C
   obtain ⟨_, s, _, d2, d3, _⟩ := c6 j hj
   exact ⟨s, d2, d3⟩
 
+
+/-! ## after a recovery round, rotating leaders (task S12e; Proofs/SysRotateGlue.lean) -/
+
+/-- **Recovery reaches phase A with rotating leaders** (and a silent minority): the leader `L` of view `v + 1` and the leader `c2 ≠ L`
+of view `v + 2` are participants.  Hypotheses of `recovery_from_reachable_live` (`RecPreLive` with `ℓ = L`) and `SyncPreRot`; the
+timeout messages are delivered in any order, then the proposals in any order `ordP` (the leader's own vote for its proposal stays in
+flight).  Then: phase A at `(v + 1, b')` with collector `c2`, the votes for `b'` in flight to `c2` (the leader's included), and the
+committer's walk from `b'` possible everywhere. -/
+theorem recovery_reaches_synced_rot (k : Keys) (C : SysCfg) (L c2 : Nat) (hC : RotCfg C) (D : RecData) (s0 : Nat → RState)
+    (σ0 : SysState) (blk : Hash → Block) (hk : KeysOK k) (hr : Reach k C σ0) (hca : CA' σ0 blk)
+    (hl1 : ldr C (D.v + 1) = L) (hl2 : ldr C (D.v + 1 + 1) = c2) (hne12 : L ≠ c2) (hc2m : c2 ∈ C.honest)
+    (hP : RecPreLive k C D s0 L σ0.truth) (h0 : RecStart C s0 σ0.truth σ0)
+    (msgs : List (Nat × Nat)) (hm : FullOrder C msgs) (N : Nat) (hY : SyncPreRot C D s0 N)
+    (ordP : List Nat) (hordP : OthersOrder C L ordP) :
+    ∃ (i : Nat) (b' : Block) (bt : Nat → Nat),
+      i ∈ C.honest ∧ Top C D i ∧ b'.view = D.v + 1 ∧ b'.qc = D.hq i ∧ b'.proposer = L ∧
+      PhaseARot C (D.v + 1) (N + 2) b' (D.hb i) bt (proposalRoundR k C ordP (recoveryRound k C D σ0 msgs)).1 ∧
+      VotesFly C (ldr C (D.v + 1 + 1)) b'.hash bt (proposalRoundR k C ordP (recoveryRound k C D σ0 msgs)).2 ∧
+      ∀ j ∈ C.honest, ∃ s, (proposalRoundR k C ordP (recoveryRound k C D σ0 msgs)).1.reps.lookup j = some s ∧ WalkZ b' s :=
+  HsVerif.Model.recovery_reaches_phaseA_rot k C L c2 hC D s0 σ0 blk hk hr hca hl1 hl2 hne12 hc2m hP h0 msgs hm N hY ordP hordP
+
+/-- **Commit after recovery with rotating leaders** (and a silent minority): the leaders of the views `v + 1 … v + 5` are
+participants (`v + 5` only receives votes), the leaders of `v + 1` and `v + 2` differ.  From any reachable state that satisfies
+`RecPreLive` (leader `ldr C (v + 1)`), `RecStart`, `CA'`, `KeysOK`, `SyncPreRot`: timeout messages (any order), proposals (any order),
+three views of the chain (any orders) — every participant has committed the block `b'` of view `v + 1` proposed after the recovery. -/
+theorem commit_after_recovery_rot (k : Keys) (C : SysCfg) (hC : RotCfg C) (D : RecData) (s0 : Nat → RState)
+    (σ0 : SysState) (blk : Hash → Block) (hk : KeysOK k) (hr : Reach k C σ0) (hca : CA' σ0 blk)
+    (hne12 : ldr C (D.v + 1) ≠ ldr C (D.v + 1 + 1))
+    (hl2 : ldr C (D.v + 1 + 1) ∈ C.honest) (hl3 : ldr C (D.v + 1 + 2) ∈ C.honest) (hl4 : ldr C (D.v + 1 + 3) ∈ C.honest)
+    (hl5 : ldr C (D.v + 1 + 4) ∈ C.honest)
+    (hP : RecPreLive k C D s0 (ldr C (D.v + 1)) σ0.truth) (h0 : RecStart C s0 σ0.truth σ0)
+    (msgs : List (Nat × Nat)) (hm : FullOrder C msgs) (N : Nat) (hY : SyncPreRot C D s0 N)
+    (ordP v1 p1 v2 p2 v3 p3 : List Nat) (hordP : OthersOrder C (ldr C (D.v + 1)) ordP)
+    (hv1 : OthersOrder C (ldr C (D.v + 1 + 1)) v1) (hp1 : OthersOrder C (ldr C (D.v + 1 + 1)) p1)
+    (hv2 : OthersOrder C (ldr C (D.v + 1 + 2)) v2) (hp2 : OthersOrder C (ldr C (D.v + 1 + 2)) p2)
+    (hv3 : OthersOrder C (ldr C (D.v + 1 + 3)) v3) (hp3 : OthersOrder C (ldr C (D.v + 1 + 3)) p3) :
+    ∃ (i : Nat) (b' : Block), i ∈ C.honest ∧ Top C D i ∧ b'.view = D.v + 1 ∧ b'.qc = D.hq i ∧ b'.proposer = ldr C (D.v + 1) ∧
+      ∀ j ∈ C.honest, ∃ s,
+        (chainViewRot k C v3 p3 (chainViewRot k C v2 p2 (chainViewRot k C v1 p1
+          (proposalRoundR k C ordP (recoveryRound k C D σ0 msgs))))).1.reps.lookup j = some s ∧
+        s.committed = b' ∧ s.committed.view = D.v + 1 ∧ (s0 j).committed.view < s.committed.view :=
+  HsVerif.Model.commit_after_recovery_rot_core k C hC D s0 σ0 blk hk hr hca hne12 hl2 hl3 hl4 hl5 hP h0 msgs hm N hY ordP v1 p1 v2 p2 v3 p3 hordP hv1 hp1 hv2 hp2 hv3 hp3
+
 /-! ## non-vacuity: n = 4, round-robin leaders, all four take part -/
 section NonVacuity
 
@@ -300,5 +350,147 @@ theorem rotating_run_commits :
   exact ⟨s, d2, d3⟩
 
 end NonVacuity
+
+/-! ## non-vacuity of `commit_after_recovery_rot`: round-robin, four views of progress, then a recovery -/
+section NonVacuityRecovery
+
+/-- seven rounds of the fault-free round-robin run (`P1 … P4` proposed by replicas 2, 3, 4, 1; `P1 … P3` certified; everybody in view 4
+with lock `P2`, committed `P1`), the votes for `P4` are lost, and all four time out in view 4 -/
+def uRun : SysState × Msgs :=
+  deliverAll exKeys rCfg ((syncRun exKeys rCfg 7).1, [])
+    [(1, .localTimeout 4), (2, .localTimeout 4), (3, .localTimeout 4), (4, .localTimeout 4)]
+
+def uS0 (j : Nat) : RState := (uRun.1.reps.lookup j).getD {}
+def uBlk (h : Hash) : Block := ((uS0 1).chain.blocks.lookup h).getD genesisBlock
+def uQC3 : QC := ⟨some (.multi .ecdsa [⟨1, 10⟩, ⟨4, 9⟩, ⟨2, 11⟩]), 3, "P3"⟩
+def uData : RecData :=
+  { v := 4, hq := fun _ => uQC3, hb := fun _ => uBlk "P3", htc := fun _ => ⟨none, 0⟩, bt := fun i => i + 16 }
+
+/-- `RecPreLive.init`, `.parents`, `.mark` (for EVERY replica) and `SyncPreRot` for replica `j`, as one boolean -/
+def uOK (D : RecData) (s : RState) (T : List (Nat × Atom)) (j : Nat) : Bool :=
+  decide (s.view = D.v) && decide (s.queue.length = 0) && decide (s.timeouts = [D.tmsg rCfg j]) &&
+  decide (s.highQC = D.hq j) && decide (s.waitingVC.length = 0) && decide (s.lastVoted ≤ D.v) &&
+  rCfg.honest.all (fun i =>
+    verifyQC (env exKeys (rCfg.rcfg j) { s with truth := T }) (D.hq i) &&
+    decide (s.chain.blocks.lookup (D.hq i).hash = some (D.hb i)) &&
+    decide ((D.hq i).view = (D.hb i).view) && decide ((D.hq i).view < D.v) &&
+    verifyTC (env exKeys (rCfg.rcfg j) { s with truth := T }) (D.htc i) && decide ((D.htc i).view < D.v) &&
+    acceptedB (fun b => T.lookup b) (rCfg.rcfg j).cfg (D.tmsg rCfg i) &&
+    (match s.chain.blocks.lookup (D.hb i).qc.hash with | some P => decide (P.view ≤ D.v) | none => false) &&
+    cmWalk (s.chain.blocks.length + 2) s.chain.blocks s.committed.view (D.hb i) &&
+    markWalk (s.chain.fuel + 1) s.chain.blocks s.lastProposed (D.hb i)) &&
+  decide (s.chain.fetchable.length = 0) && decide (s.waitingProp.length = 0) && namesOK D.v s &&
+  decide (s.committed.view ≤ D.v) && decide (2 * s.chain.blocks.length + (D.v + 1) ≤ 1000)
+
+def uAllOK : Bool :=
+  rCfg.honest.all fun j =>
+    match uRun.1.reps.lookup j with
+    | some s => uOK uData s uRun.1.truth j
+    | none => false
+
+set_option maxRecDepth 100000 in
+theorem uAllOK_true : uAllOK = true := by decide +kernel
+
+theorem u_rep (j : Nat) (hj : j ∈ rCfg.honest) :
+    uRun.1.reps.lookup j = some (uS0 j) ∧ uOK uData (uS0 j) uRun.1.truth j = true := by
+  have h := List.all_eq_true.mp uAllOK_true j hj
+  unfold uS0
+  cases hl : uRun.1.reps.lookup j with
+  | none => rw [hl] at h; cases h
+  | some s => rw [hl] at h; exact ⟨rfl, h⟩
+
+theorem u_of_ok (D : RecData) (s : RState) (T : List (Nat × Atom)) (j : Nat) (h : uOK D s T j = true) :
+    (RColl rCfg D s j [] s ∧ s.waitingVC = [] ∧ s.lastVoted ≤ D.v ∧ KnowsAll exKeys rCfg D j { s with truth := T }) ∧
+    (∀ i ∈ rCfg.honest, (∃ P, s.chain.blocks.lookup (D.hb i).qc.hash = some P ∧ P.view ≤ D.v) ∧
+      cmWalk (s.chain.blocks.length + 2) s.chain.blocks s.committed.view (D.hb i) = true ∧
+      markWalk (s.chain.fuel + 1) s.chain.blocks s.lastProposed (D.hb i) = true) ∧
+    s.chain.fetchable = [] ∧ s.waitingProp = [] ∧
+    (∀ u, D.v < u → s.chain.blocks.lookup (pname u) = none ∧ s.votes.lookup (pname u) = none) ∧
+    s.committed.view ≤ D.v ∧ 2 * s.chain.blocks.length + (D.v + 1) ≤ 1000 := by
+  simp only [uOK, Bool.and_eq_true, decide_eq_true_eq, List.all_eq_true] at h
+  obtain ⟨⟨⟨⟨⟨⟨⟨⟨⟨⟨⟨h1, h2⟩, h3⟩, h4⟩, h5⟩, h6⟩, h7⟩, g1⟩, g2⟩, g3⟩, g4⟩, g5⟩ := h
+  refine ⟨⟨⟨Frame.refl _, h1, List.eq_nil_of_length_eq_zero h2, h3, h4⟩, List.eq_nil_of_length_eq_zero h5, h6, ?_, ?_, ?_⟩,
+    ?_, List.eq_nil_of_length_eq_zero g1, List.eq_nil_of_length_eq_zero g2, names_of_ok D.v s g3, g4, g5⟩
+  · intro i hi
+    obtain ⟨⟨⟨⟨⟨⟨⟨⟨⟨a1, a2⟩, a3⟩, a4⟩, _⟩, _⟩, _⟩, _⟩, _⟩, _⟩ := h7 i hi
+    exact ⟨a1, a2, a3, a4⟩
+  · intro i hi
+    obtain ⟨⟨⟨⟨⟨⟨⟨⟨⟨_, _⟩, _⟩, _⟩, a5⟩, a6⟩, _⟩, _⟩, _⟩, _⟩ := h7 i hi
+    exact ⟨a5, a6⟩
+  · intro i hi
+    obtain ⟨⟨⟨⟨⟨⟨⟨⟨⟨_, _⟩, _⟩, _⟩, _⟩, _⟩, a7⟩, _⟩, _⟩, _⟩ := h7 i hi
+    exact accepted_of_acceptedB _ _ _ a7
+  · intro i hi
+    obtain ⟨⟨⟨_, a8⟩, a9⟩, a10⟩ := h7 i hi
+    refine ⟨?_, a9, a10⟩
+    cases hl : s.chain.blocks.lookup (D.hb i).qc.hash with
+    | none => rw [hl] at a8; cases a8
+    | some P => rw [hl] at a8; exact ⟨P, rfl, by simpa using a8⟩
+
+theorem uRun_reach : Reach exKeys rCfg uRun.1 := by
+  unfold uRun; exact deliverAll_reach2 exKeys rCfg _ _ _ (syncRun_reach exKeys rCfg 7)
+
+set_option maxRecDepth 100000 in
+/-- **all hypotheses of `commit_after_recovery_rot` hold of that run**: the leaders of views 5 … 9 are replicas 2, 3, 4, 1, 2 -/
+theorem commit_after_recovery_rot_nonvacuous :
+    RotCfg rCfg ∧ KeysOK exKeys ∧ Reach exKeys rCfg uRun.1 ∧ CA' uRun.1 uBlk ∧
+    [ldr rCfg 5, ldr rCfg 6, ldr rCfg 7, ldr rCfg 8, ldr rCfg 9] = [2, 3, 4, 1, 2] ∧
+    RecPreLive exKeys rCfg uData uS0 2 uRun.1.truth ∧ RecStart rCfg uS0 uRun.1.truth uRun.1 ∧
+    uRun.2 = (senderMajor rCfg).map (fun p => (p.1, Ev.timeout (uData.tmsg rCfg p.2))) ∧
+    SyncPreRot rCfg uData uS0 1000 ∧ (∀ j ∈ rCfg.honest, (uS0 j).lock.view = 2 ∧ (uS0 j).committed.view = 1) := by
+  have hl5 : ldr rCfg (uData.v + 1) = 2 := by decide
+  have hreach := uRun_reach
+  have hrep := fun j hj => u_of_ok uData _ _ j (u_rep j hj).2
+  refine ⟨rRot, tmoMsgKey_ne_blkMsg, hreach, ca'_of_ca'Check _ _ (by decide +kernel), by decide,
+    ⟨rfl, by decide, by decide, by decide, by decide, by decide, by decide, by unfold FewFaulty; decide, by decide, ?_, by decide,
+      ?_, ?_, ?_⟩,
+    recStart_of_reach exKeys rCfg uS0 uRun.1 hreach (by decide +kernel) (fun j hj => (u_rep j hj).1),
+    by decide +kernel,
+    ⟨⟨fun j hj => (hrep j hj).2.2.1, fun j hj => (hrep j hj).2.2.2.1, fun j hj => (hrep j hj).2.2.2.2.1,
+      fun j hj i hi _ => ((hrep j hj).2.1 i hi).1, fun j hj => (hrep j hj).2.2.2.2.2.1, fun j hj => (hrep j hj).2.2.2.2.2.2,
+      fun j hj i hi _ => ((hrep j hj).2.1 i hi).2.1, by decide⟩, fun j hj i hi _ => ((hrep j hj).2.1 i hi).2.2⟩,
+    by decide +kernel⟩
+  · intro j _; exact hl5
+  · intro j hj; exact (hrep j hj).1
+  · intro i hi
+    exact ((hrep 2 (by decide)).2.1 i hi).2.2
+  · intro j hj i hi _
+    obtain ⟨P, hP, _⟩ := ((hrep j hj).2.1 i hi).1
+    exact Or.inr ⟨P, hP⟩
+
+/-- the run after the recovery: timeout messages (order of `syncRound`), proposals of `P5` (proposer 2) to 1, 3, 4, three views -/
+def uFinal : SysState × Msgs :=
+  chainViewRot exKeys rCfg [2, 3, 4] [3, 4, 2] (chainViewRot exKeys rCfg [1, 2, 3] [3, 2, 1] (chainViewRot exKeys rCfg [1, 2, 4] [4, 1, 2]
+    (proposalRoundR exKeys rCfg [1, 3, 4] (recoveryRound exKeys rCfg uData uRun.1 (senderMajor rCfg)))))
+
+set_option maxRecDepth 100000 in
+/-- **`commit_after_recovery_rot` applies to the run and the kernel evaluation agrees**: all four commit `P5`, the block proposed after
+the recovery (they had committed `P1`); the blocks `P5 … P8` were proposed by replicas 2, 3, 4, 1 -/
+theorem rotating_recovery_commits :
+    (∃ b' : Block, b'.view = 5 ∧ ∀ j ∈ rCfg.honest, ∃ s, uFinal.1.reps.lookup j = some s ∧ s.committed = b' ∧
+      (uS0 j).committed.view < s.committed.view) ∧
+    uFinal.1.reps.map (fun p => (p.1, p.2.view, p.2.committed.hash, p.2.lastProposed)) =
+      [(1, 8, "P5", 8), (2, 8, "P5", 5), (3, 8, "P5", 6), (4, 8, "P5", 7)] := by
+  refine ⟨?_, by decide +kernel⟩
+  unfold uFinal
+  obtain ⟨hC, hk, hr, hca, _, hP, h0, _, hY, _⟩ := commit_after_recovery_rot_nonvacuous
+  have ho : ∀ (c : Nat) (l : List Nat), l.Nodup → (∀ j ∈ l, j ∈ [1, 2, 3, 4] ∧ j ≠ c) →
+      (∀ j ∈ [1, 2, 3, 4], j ≠ c → j ∈ l) → OthersOrder rCfg c l :=
+    fun c l h1 h2 h3 => ⟨h1, h2, h3⟩
+  obtain ⟨i, b', _, _, r3, _, _, r6⟩ := commit_after_recovery_rot exKeys rCfg hC uData uS0 uRun.1 uBlk hk hr hca
+    (by decide) (by decide) (by decide) (by decide) (by decide)
+    (by rw [show ldr rCfg (uData.v + 1) = 2 from by decide]; exact hP) h0
+    (senderMajor rCfg) (senderMajor_full rCfg (by decide)) 1000 hY
+    [1, 3, 4] [1, 2, 4] [4, 1, 2] [1, 2, 3] [3, 2, 1] [2, 3, 4] [3, 4, 2]
+    (ho 2 _ (by decide) (by decide) (by decide))
+    (ho 3 _ (by decide) (by decide) (by decide)) (ho 3 _ (by decide) (by decide) (by decide))
+    (ho 4 _ (by decide) (by decide) (by decide)) (ho 4 _ (by decide) (by decide) (by decide))
+    (ho 1 _ (by decide) (by decide) (by decide)) (ho 1 _ (by decide) (by decide) (by decide))
+  refine ⟨b', r3, ?_⟩
+  intro j hj
+  obtain ⟨s, e1, e2, _, e4⟩ := r6 j hj
+  exact ⟨s, e1, e2, e4⟩
+
+end NonVacuityRecovery
 
 end HsVerif.Props.C05Rotate
